@@ -7,3 +7,5 @@ import TssVerif.Props.C15
 import TssVerif.Props.C17
 import TssVerif.Props.C06
 import TssVerif.Props.C13
+import TssVerif.Props.C12
+import TssVerif.Props.GenObligations
